@@ -146,6 +146,7 @@ impl FixedTransaction {
         let body = TransactionBody::from_bytes(raw_body.to_vec())?;
         self.body = body;
         self.body_bytes = raw_body.to_vec();
+        self.tx_hash = TransactionHash::from(blake2b256(raw_body));
         Ok(())
     }
 
